@@ -1125,6 +1125,13 @@ func main() {
 		facts["mergeInputCalls"] = l
 		return "def mergeInputCalls : List Bytes := " + bytesList(l)
 	})
+	// ---- commands/command_post_commit.go, command_post_checkout.go (C16): the hooks fall back on the full scan when
+	// an attributes file is among the changed files
+	emit("hookFullScans", func() string {
+		l := append(cmds.callsWithConds("postCommitCommand", "", "FixAllLockableFileWriteFlags"), cmds.callsWithConds("postCheckoutRevChange", "", "postCheckoutFileChange")...)
+		facts["hookFullScans"] = l
+		return "def hookFullScans : List Bytes := " + bytesList(l)
+	})
 	// ---- commands/command_unlock.go (C16): the guard of `unlock --id` finds the lock's path in the local cache
 	// and, failing that, asks the server
 	emit("unlockByIdLookups", func() string {
